@@ -139,4 +139,22 @@ def main(args, seed):
     finally:
         shutil.rmtree(root, ignore_errors=True)
     print(f"sensitivity: {sum(1 for r in rows if r[3].startswith('OK'))}/{len(rows)} as expected")
+    if not args:
+        # full run: keep the table next to the catalogue
+        what = {m["name"]: m.get("what", "") for m in load_mutations()}
+        head = subprocess.run(["git", "-C", repo, "rev-parse", "--short", "HEAD"],
+                              capture_output=True, text=True).stdout.strip()
+        with open(os.path.join(HERE, "RESULTS.md"), "w") as fh:
+            fh.write("# Sensitivity self-test results\n\n"
+                     f"`./verif selftest sensitivity --tier {tier}` with VERIF_SEED={seed} against "
+                     f"scratch copies of /repo at {head}.  *OK-caught* = quick tier exits 1 with a "
+                     "VIOLATION line, the replay file reproduces on the mutant (exit 1) and is quiet "
+                     "on the unmutated tree (exit 0).  *OK-quiet* = exit 0 on an equivalent / "
+                     "compliant change.\n\n"
+                     "| mutation | property | expected | result | violation class | what |\n"
+                     "|---|---|---|---|---|---|\n")
+            for name, prop, expect, verdict, detail in rows:
+                cls = detail.split("class=")[1] if "class=" in detail else ""
+                fh.write(f"| {name} | {prop} | {expect} | {verdict} | `{cls}` | "
+                         f"{what.get(name, '').replace('|', '/')} |\n")
     return 0 if ok_all else 1
